@@ -75,6 +75,10 @@ def processLine (line : String) : String :=
       if nat j "strangeContentSeen" != 0 || !(bool j "finalKnown") then s!"PROP C18 configuration-file-seen-neither-old-nor-new-with-concurrent-mcp-writers {tag}"
       else if nat j "writersFailed" != 0 then s!"PROP C18 concurrent-mcp-writer-failed {tag}"
       else "ok"
+    | "stale-op-vs-release" =>
+      -- C03 / C04: a lease handed out and not settled is still held; a stale operation (expired or already used lease) changes nothing
+      if nat j "grantsLostOrDoubled" != 0 then s!"PROP C03,C04 live-lease-wiped-by-a-stale-operation-or-message-granted-twice count={nat j "grantsLostOrDoubled"} {tag}"
+      else "ok"
     | "reload-raise-inflight" =>
       if !(bool j "reloadOK") || nat j "first" != 202 then s!"DIVERGE concx reload-raise-inflight: scenario did not run as intended {tag}"
       else if nat j "replay" == 202 then s!"PROP C09 replay-accepted-after-a-request-served-during-a-tolerance-raising-reload {tag}"
